@@ -208,6 +208,7 @@ func checkCase(c Case) *evid.Failure {
 
 // feat summarises a value for the label histogram.
 type feat struct {
+	implPM, implCM, implSingular, implPtr, implRep, implMap                                                       bool
 	neg32, neg64, sint, fixed, float, mapNonEmpty, mapEmpty, mapMsg, depth, longRep, nilPtr, ptrZero, rep, bytes2 bool
 	maxDepth                                                                                                      int
 	maxNum                                                                                                        int
@@ -253,6 +254,23 @@ func features(s *ps.Schema, m *ps.Message, v *ps.Val, depth int, ft *feat) {
 		fv := &v.L[i]
 		if f.Num > ft.maxNum && !s.FieldIsZero(f, fv) {
 			ft.maxNum = f.Num
+		}
+		if f.Impl != "" && !s.FieldIsZero(f, fv) {
+			if f.Impl == "pm" {
+				ft.implPM = true
+			} else {
+				ft.implCM = true
+			}
+			switch {
+			case f.K == ps.KMap:
+				ft.implMap = true
+			case f.Rep:
+				ft.implRep = true
+			case f.Ptr:
+				ft.implPtr = true
+			default:
+				ft.implSingular = true
+			}
 		}
 		switch {
 		case f.K == ps.KMap:
@@ -308,7 +326,7 @@ func label(cond bool, name string) {
 }
 
 func genOpts() (ps.GenOpts, ps.ValOpts) {
-	g := ps.GenOpts{}
+	g := ps.GenOpts{Impl: true}
 	if evid.KnownActive(clsBigNum) {
 		g.NumCap = 65535
 	}
@@ -425,6 +443,12 @@ func TestWire(t *testing.T) {
 			label(ft.nilPtr, "value.nil-pointer")
 			label(ft.ptrZero, "value.pointer-to-zero")
 			label(ft.bytes2, "value.bytes>=128(2-byte length)")
+			label(ft.implPM, "value.self-encoding proto.Message struct")
+			label(ft.implCM, "value.self-encoding custom(gogo) struct")
+			label(ft.implSingular, "value.self-encoding.singular")
+			label(ft.implPtr, "value.self-encoding.pointer")
+			label(ft.implRep, "value.self-encoding.repeated")
+			label(ft.implMap, "value.self-encoding.map-value")
 			evid.Label(fmt.Sprintf("value.depth%d", ft.maxDepth))
 			for w := range it.Wires {
 				st := &metas[i].st[w]
